@@ -85,6 +85,12 @@ func ValidateAttestation(ctx context.Context, subnet uint64, att *phase0.Attesta
 	} else if !inSubtree {
 		return nil, GossipValidatorResult{REJECT, errors.New("block not in subtree of target")}
 	}
+	// being an ancestor is not enough: the target must be the checkpoint block of the vote in the target epoch
+	if cpRoot, ok := checkpointBlock(ch, att.Data.BeaconBlockRoot, targetSlot); !ok {
+		return nil, GossipValidatorResult{IGNORE, errors.New("unknown ancestor of block, cannot determine its checkpoint block")}
+	} else if cpRoot != att.Data.Target.Root {
+		return nil, GossipValidatorResult{REJECT, fmt.Errorf("target %s is not the checkpoint block %s of the voted block in epoch %d", att.Data.Target.Root, cpRoot, att.Data.Target.Epoch)}
+	}
 
 	// [IGNORE] The current finalized_checkpoint is an ancestor of the block defined
 	// by attestation.data.beacon_block_root --
